@@ -397,9 +397,9 @@ impl<'a> CompilerState<'a> {
     fn parse_expr_ex(
         &self,
         pairs: Pairs<'a, Rule>,
-    ) -> Result<(Expr, HashMap<String, String>), Error> {
+    ) -> Result<(Expr, Vec<(String, String)>), Error> {
         let literal_counter = Rc::new(Mutex::new(self.literal_counter));
-        let literal_strings = Rc::new(Mutex::new(HashMap::<String, String>::new()));
+        let literal_strings = Rc::new(Mutex::new(Vec::<(String, String)>::new()));
         if pairs.len() == 0 {
             let lit_strs = Rc::into_inner(literal_strings)
                 .unwrap()
@@ -418,7 +418,7 @@ impl<'a> CompilerState<'a> {
                         let res = self.parse_expr_ex(primary.into_inner())?;
                         let mut lit_strs = literal_strings.lock().unwrap();
                         for k in &res.1 {
-                            lit_strs.insert(k.0.clone(), k.1.clone());
+                            lit_strs.push((k.0.clone(), k.1.clone()));
                         }
                         let mut l = literal_counter.lock().unwrap();
                         *l += res.1.len();
@@ -435,7 +435,7 @@ impl<'a> CompilerState<'a> {
                         let name = format!("cctmp{}", l);
                         *l += 1;
                         let mut lit_strs = literal_strings.lock().unwrap();
-                        lit_strs.insert(name.clone(), v);
+                        lit_strs.push((name.clone(), v));
                         Ok(Expr::TmpId(name))
                     }
                     Rule::primary_var_type => Ok(Expr::Type(primary.as_str().into())),
@@ -501,7 +501,7 @@ impl<'a> CompilerState<'a> {
                         let res = self.parse_expr_ex(x.into_inner())?;
                         let mut lit_strs = literal_strings.lock().unwrap();
                         for k in &res.1 {
-                            lit_strs.insert(k.0.clone(), k.1.clone());
+                            lit_strs.push((k.0.clone(), k.1.clone()));
                         }
                         let mut l = literal_counter.lock().unwrap();
                         *l += res.1.len();
@@ -562,9 +562,9 @@ impl<'a> CompilerState<'a> {
     fn parse_expr_init_value_ex(
         &self,
         pairs: Pairs<'a, Rule>,
-    ) -> Result<(Expr, HashMap<String, String>), Error> {
+    ) -> Result<(Expr, Vec<(String, String)>), Error> {
         let literal_counter = Rc::new(Mutex::new(self.literal_counter));
-        let literal_strings = Rc::new(Mutex::new(HashMap::<String, String>::new()));
+        let literal_strings = Rc::new(Mutex::new(Vec::<(String, String)>::new()));
         let res = self
             .pratt_init_value
             .map_primary(|primary| -> Result<Expr, Error> {
@@ -576,7 +576,7 @@ impl<'a> CompilerState<'a> {
                         let res = self.parse_expr_ex(primary.into_inner())?;
                         let mut lit_strs = literal_strings.lock().unwrap();
                         for k in &res.1 {
-                            lit_strs.insert(k.0.clone(), k.1.clone());
+                            lit_strs.push((k.0.clone(), k.1.clone()));
                         }
                         let mut l = literal_counter.lock().unwrap();
                         *l += res.1.len();
@@ -593,7 +593,7 @@ impl<'a> CompilerState<'a> {
                         let name = format!("cctmp{}", l);
                         *l += 1;
                         let mut lit_strs = literal_strings.lock().unwrap();
-                        lit_strs.insert(name.clone(), v);
+                        lit_strs.push((name.clone(), v));
                         Ok(Expr::TmpId(name))
                     }
                     Rule::primary_var_type => Ok(Expr::Type(primary.as_str().into())),
@@ -658,7 +658,7 @@ impl<'a> CompilerState<'a> {
                         let res = self.parse_expr_ex(x.into_inner())?;
                         let mut lit_strs = literal_strings.lock().unwrap();
                         for k in &res.1 {
-                            lit_strs.insert(k.0.clone(), k.1.clone());
+                            lit_strs.push((k.0.clone(), k.1.clone()));
                         }
                         let mut l = literal_counter.lock().unwrap();
                         *l += res.1.len();
